@@ -51,6 +51,7 @@ type Exec struct {
 	refine     *refineCtx
 	feas       *feasSolver
 	cutSeen    map[string]string
+	inRunning  bool
 	curPos     token.Pos
 }
 
@@ -437,6 +438,9 @@ func (x *Exec) execInstr(fr *Frame, st *State, ins ssa.Instruction) {
 		}
 		x.nilCheck(fr, st, addr.P, i.Pos())
 		x.Store(fr, st, addr.P, x.svTerm(v))
+		if addr.P.Local == nil {
+			x.checkRunning(fr, st, i.Pos())
+		}
 		if v.Fn != nil || v.P != nil {
 			// remember engine-side knowledge of the stored value for local cells
 			x.rememberCell(fr, addr.P, v)
@@ -1308,6 +1312,22 @@ func (x *Exec) enterLoopHead(fr *Frame, st *State, b, prev *ssa.BasicBlock, lp *
 	}
 	// a loop head entered afresh may be visited again by an outer loop iteration: reset counter
 	return true
+}
+
+// checkRunning proves and then assumes the unit's running invariants (stepping stones) after a
+// heap-modifying step of the function under verification.
+func (x *Exec) checkRunning(fr *Frame, st *State, pos token.Pos) {
+	if fr.depth != 0 || fr.pure || x.unit == nil || x.unit.Con == nil || len(x.unit.Con.Running) == 0 || x.inRunning {
+		return
+	}
+	x.inRunning = true
+	defer func() { x.inRunning = false }()
+	env := &Env{x: x, vars: x.entryEnv, heap: st.heap, old: x.heap0}
+	for _, c := range x.unit.Con.Running {
+		g := x.evalClauseBool(c, env, st)
+		x.oblige(st, "running", c.Label, c.Tags, g, pos)
+		st.assume(g)
+	}
 }
 
 // atCut implements a join-point cut: the first path to arrive proves the cut invariant, forgets the
